@@ -76,6 +76,9 @@ def c02(r):
         if ok:
             raise Inconclusive(cfg + " should reproduce the P2P cursor defect")
     syncer(r, ["C02."], crash=False)
+    # DA ingress with delays: the same chains scanned from a DA layer that answers with every fault sequence
+    t = r.drive("syncer", ["-arg", "retrieve"], name="syncer-retrieve")
+    r.tlc_validate("SyncTrace", t, ["C02."])
 
 
 def c03(r):
@@ -150,7 +153,7 @@ def c13(r):
     st = r.driver_stats.get("fullnode", {})
     if st.get("stops", 0) < max(1, st.get("scenarios", 0) - 2):
         raise Inconclusive("fullnode driver could prepare only %d of %d stop scenarios" % (st.get("stops", 0), st.get("scenarios", 0)))
-    r.tlc_validate("RunTrace", tn, ["C13."])
+    r.tlc_validate("RunTrace", tn, ["C13.", "C07."])
     # "the guarantees C01, C02, C06 and C07 hold on every interleaving": the five loops of a full node, with
     # datastore writes as scheduling points in every other run (a loop that was just signalled runs between any
     # two durable writes of block application)
@@ -261,6 +264,9 @@ def c07(r):
     for args, name in ((["-arg", "retrieve"], "syncer-retrieve"), ([], "syncer-random"), (["-arg", "crash"], "syncer-crashenum")):
         t = r.drive("syncer", args, name=name)
         r.tlc_validate("SyncTrace", t, ["C07."])
+    # the whole node: an orderly stop with a submission in flight, restart on the same storage (real FullNode.Run)
+    tn = r.drive("fullnode", name="fullnode", timeout=1500)
+    r.tlc_validate("RunTrace", tn, ["C07."])
     # unbounded in chain length: the watermark / DA-included discipline as an inductive invariant
     r.apalache_inductive("WatermarkInd", implied=("WmSound", "InclSound"))
 
